@@ -178,6 +178,21 @@ pub fn call(config: &vh::Config, code: &str, file: &str, fs: &FsSpec, plan: &Fau
     }
 }
 
+/// The same call, but the reader re-enters: at its first open it runs `inner` (a rewrite on another
+/// instance) before answering.
+pub fn call_reentrant<'a>(config: &vh::Config, code: &str, file: &str, fs: &FsSpec, plan: &FaultPlan, inner: Box<dyn FnOnce() + 'a>) -> CallResult {
+    let reader = SimFileReader::new(fs, plan).with_reenter(inner);
+    let r = catch_unwind(AssertUnwindSafe(|| vh::rewrite_with_reader(config, code.to_string(), file, &reader)));
+    let outcome = match r {
+        Ok(res) => canonical(res),
+        Err(_) => {
+            let (msg, loc) = take_last_panic().unwrap_or_default();
+            Outcome::Panic { msg, loc }
+        }
+    };
+    CallResult { outcome, stats: reader.stats() }
+}
+
 /// A configuration close to what the tracer passes in production.
 pub fn tracer_like_cfg(prefix: Option<&str>, chain: bool, comments: bool, verbosity: &str, literals: bool) -> Value {
     let mut methods = vec![
